@@ -365,15 +365,17 @@ func (p *Parser) parseObjectLiteral() ast.Expression {
 			obj.Pairs[key] = p.parseExpression(LOWEST)
 		}
 
-		if p.peekTokenIs(token.RBRACE) {
-			p.nextToken() // skip "}"
-			break
-		}
-
 		if p.peekTokenIs(token.COMMA) {
 			p.nextToken() // move to ","
 			p.nextToken() // skip ","
+			continue
 		}
+
+		if !p.expectPeek(token.RBRACE) { // move to "}"
+			return nil
+		}
+
+		break
 	}
 
 	return obj
